@@ -395,7 +395,9 @@ SUBMIT_JOB_CUSTOM_CIPHER(IMB_JOB *job)
 __forceinline IMB_JOB *
 FLUSH_JOB_CUSTOM_CIPHER(IMB_JOB *job)
 {
-        return JOB_CUSTOM_CIPHER(job);
+        /* custom ciphers run synchronously at submit time: nothing is ever parked */
+        (void) job;
+        return NULL;
 }
 
 __forceinline IMB_JOB *
@@ -419,7 +421,9 @@ SUBMIT_JOB_CUSTOM_HASH(IMB_JOB *job)
 __forceinline IMB_JOB *
 FLUSH_JOB_CUSTOM_HASH(IMB_JOB *job)
 {
-        return JOB_CUSTOM_HASH(job);
+        /* custom hashes run synchronously at submit time: nothing is ever parked */
+        (void) job;
+        return NULL;
 }
 
 /* ========================================================================= */
